@@ -49,18 +49,104 @@ _CHECKED = {"AddWithOverflow": "Add", "SubWithOverflow": "Sub", "MulWithOverflow
 
 
 class Resolver:
-    def __init__(self, facts, body, max_depth=14):
+    """Resolves operands to expression trees.
+
+    With a program point `at=(bb, pos)` (pos = statement index; len(stmts) = the terminator) the
+    resolution is flow-sensitive: only the definitions of a local that *reach* the point are
+    followed (classic reaching-definitions over the normal-edge CFG).  Without a point every
+    definition of the local is an alternative.
+    """
+
+    def __init__(self, facts, body, max_depth=64):
         self.F = facts
         self.body = body
         self.defs = Defs(body)
         self.max_depth = max_depth
-        self._memo = {}
+        self._rd = {}
+        self._succ = None
+
+    # -- reaching definitions -----------------------------------------------------------------
+    def _succs(self):
+        if self._succ is None:
+            from .cfg import term_succs
+
+            self._succ = []
+            for b in self.body.blocks:
+                if b["cleanup"]:
+                    self._succ.append([])
+                else:
+                    self._succ.append([t for t, _ in term_succs(b["term"])])
+        return self._succ
+
+    def _pos(self, d):
+        # position of a def inside its block; a call's destination is written at the very end
+        return d[2] if d[0] == "assign" else len(self.body.blocks[d[1]]["stmts"])
+
+    def _reaching_in(self, l):
+        """{bb: frozenset(def indices reaching block entry)}; -1 = the value at function entry"""
+        r = self._rd.get(l)
+        if r is not None:
+            return r
+        ds = self.defs.defs.get(l, [])
+        last = {}
+        for i, d in enumerate(ds):
+            bb = d[1]
+            if bb not in last or self._pos(d) >= self._pos(ds[last[bb]]):
+                last[bb] = i
+        succ = self._succs()
+        IN = {0: {-1}}
+        work = [0]
+        while work:
+            b = work.pop()
+            out = {last[b]} if b in last else IN[b]
+            for t in succ[b]:
+                cur = IN.get(t)
+                if cur is None:
+                    IN[t] = set(out)
+                    work.append(t)
+                elif not out <= cur:
+                    cur |= out
+                    work.append(t)
+        self._rd[l] = IN
+        return IN
+
+    def reaching(self, l, at):
+        """indices into defs[l] (or -1) reaching point at=(bb,pos)"""
+        ds = self.defs.defs.get(l, [])
+        bb, pos = at
+        best = None
+        for i, d in enumerate(ds):
+            if d[1] == bb and self._pos(d) < pos:
+                if best is None or self._pos(d) >= self._pos(ds[best]):
+                    best = i
+        if best is not None:
+            return [best]
+        return sorted(self._reaching_in(l).get(bb, {-1}))
+
+    def term_at(self, bb):
+        return (bb, len(self.body.blocks[bb]["stmts"]))
 
     # -- public -------------------------------------------------------------------------------
-    def operand(self, op, depth=0, stack=()):
+    def arg(self, bb, i):
+        """expression of the i-th argument of the call terminating block bb (flow-sensitive)"""
+        return self.operand(self.body.blocks[bb]["term"]["args"][i], self.term_at(bb))
+
+    def agg_op(self, bb, stmt, i):
+        """expression of the i-th operand of an aggregate statement located in block bb"""
+        idx = self.body.blocks[bb]["stmts"].index(stmt)
+        return self.operand(stmt["rv"]["ops"][i], (bb, idx))
+
+    def stmt_rvalue(self, bb, stmt):
+        idx = self.body.blocks[bb]["stmts"].index(stmt)
+        return self.rvalue(stmt["rv"], (bb, idx))
+
+    def discr(self, bb):
+        return self.operand(self.body.blocks[bb]["term"]["discr"], self.term_at(bb))
+
+    def operand(self, op, at=None, depth=0, stack=()):
         k = op["k"]
         if k in ("copy", "move"):
-            return self.place(op["place"], depth, stack)
+            return self.place(op["place"], at, depth, stack)
         if k == "const":
             if op.get("fn"):
                 return ("fnptr", norm(op["fn"]["resolved"] or op["fn"]["path"]))
@@ -71,39 +157,44 @@ class Resolver:
             return ("str", op["repr"])
         return ("unk", op.get("d", "operand"))
 
-    def place(self, pl, depth=0, stack=()):
-        e = self.local(pl["l"], depth, stack)
+    def place(self, pl, at=None, depth=0, stack=()):
+        e = self.local(pl["l"], at, depth, stack)
         for p in pl["p"]:
             e = self._project(e, p, depth, stack)
         return e
 
-    def local(self, l, depth=0, stack=()):
-        if 1 <= l <= self.body.argc:
-            if l not in self.defs.defs:
+    def local(self, l, at=None, depth=0, stack=()):
+        ds = self.defs.defs.get(l, [])
+        is_param = 1 <= l <= self.body.argc
+        if not ds:
+            if is_param:
                 return ("param", l, self.body.local_name(l))
-        if l in stack:
-            return ("loop",)
+            return ("var", l, self.body.local_name(l))
         if depth > self.max_depth:
             return ("unk", "depth")
-        ds = self.defs.defs.get(l, [])
-        if not ds:
-            if 1 <= l <= self.body.argc:
-                return ("param", l, self.body.local_name(l))
-            # only partially initialised (field by field) or never assigned
-            return ("var", l, self.body.local_name(l))
-        stack2 = stack + (l,)
+        if at is None:
+            idxs = list(range(len(ds)))
+            if is_param:
+                idxs.insert(0, -1)
+        else:
+            idxs = self.reaching(l, at)
         alts = []
-        for d in ds:
+        for i in idxs:
+            if i == -1:
+                alts.append(("param", l, self.body.local_name(l)) if is_param else ("uninit", l))
+                continue
+            key = (l, i)
+            if key in stack:
+                alts.append(("loop",))
+                continue
+            d = ds[i]
+            st2 = stack + (key,)
             if d[0] == "assign":
-                alts.append(self.rvalue(d[3], depth + 1, stack2))
+                dat = (d[1], d[2]) if at is not None else None
+                alts.append(self.rvalue(d[3], dat, depth + 1, st2))
             else:
-                t = d[3]
-                alts.append(self.call_expr(t, d[1], depth + 1, stack2))
-        if 1 <= l <= self.body.argc:
-            alts.insert(0, ("param", l, self.body.local_name(l)))
-        if len(alts) == 1:
-            return alts[0]
-        # de-duplicate
+                dat = self.term_at(d[1]) if at is not None else None
+                alts.append(self.call_expr(d[3], d[1], dat, depth + 1, st2))
         u = []
         for a in alts:
             if a not in u:
@@ -112,28 +203,28 @@ class Resolver:
             return u[0]
         return ("phi", tuple(u))
 
-    def call_expr(self, t, bb, depth=0, stack=()):
-        return ("call", callee_of(t), tuple(self.operand(a, depth + 1, stack) for a in t["args"]), bb)
+    def call_expr(self, t, bb, at=None, depth=0, stack=()):
+        return ("call", callee_of(t), tuple(self.operand(a, at, depth + 1, stack) for a in t["args"]), bb)
 
-    def rvalue(self, rv, depth=0, stack=()):
+    def rvalue(self, rv, at=None, depth=0, stack=()):
         k = rv["k"]
         if k == "use":
-            return self.operand(rv["op"], depth, stack)
+            return self.operand(rv["op"], at, depth, stack)
         if k in ("ref", "rawptr"):
-            inner = self.place(rv["place"], depth, stack)
+            inner = self.place(rv["place"], at, depth, stack)
             if inner[0] == "deref":
                 return inner[1]  # &*x == x (reborrow)
             return ("ref", inner)
         if k == "cast":
-            return ("cast", self.operand(rv["op"], depth, stack), rv["to"]["s"])
+            return ("cast", self.operand(rv["op"], at, depth, stack), rv["to"]["s"])
         if k == "bin":
-            return ("bin", rv["op"], self.operand(rv["a"], depth, stack), self.operand(rv["b"], depth, stack))
+            return ("bin", rv["op"], self.operand(rv["a"], at, depth, stack), self.operand(rv["b"], at, depth, stack))
         if k == "un":
-            return ("un", rv["op"], self.operand(rv["a"], depth, stack))
+            return ("un", rv["op"], self.operand(rv["a"], at, depth, stack))
         if k == "discr":
-            return ("discr", self.place(rv["place"], depth, stack))
+            return ("discr", self.place(rv["place"], at, depth, stack))
         if k == "agg":
-            return ("agg", rv["ak"], norm(rv["name"]), rv["variant"], tuple(self.operand(o, depth, stack) for o in rv["ops"]))
+            return ("agg", rv["ak"], norm(rv["name"]), rv["variant"], tuple(self.operand(o, at, depth, stack) for o in rv["ops"]))
         return ("unk", rv.get("d", "rvalue")[:40])
 
     # -- helpers ------------------------------------------------------------------------------
